@@ -360,4 +360,18 @@ def Obs.check (g : G) (o : Obs) : Option String :=
   else if !(o.Eg.all (fun p => g.hasEdge p.2)) then some "associated_edge_is_live"
   else none
 
+
+/-- **deleted items are forgotten**, executable: every object that was associated in `before`
+to a node or edge id that is no longer in graph `g` is in none of the maps of `after` -/
+def Obs.forgotOk (g : G) (before after : Obs) : Bool :=
+  let gone (v : Vec) (m : List (Nat × Nat)) (a : Obj) : Bool := !(AL.has a m) && !(v.contains (some a))
+  before.Ng.all (fun p => g.hasNode p.2 || (gone after.gN after.Ng p.1 && gone after.iN after.Ni p.1)) &&
+  before.Eg.all (fun p => g.hasEdge p.2 || (gone after.gE after.Eg p.1 && gone after.iE after.Ei p.1))
+
+/-- **a copy has the same relations**, executable: same object↔id pairs, and the same index for
+every associated object -/
+def Obs.sameRelations (o c : Obs) : Bool :=
+  o.Ng == c.Ng && o.Eg == c.Eg &&
+  o.Ng.all (fun p => AL.find p.1 o.Ni == AL.find p.1 c.Ni) && o.Eg.all (fun p => AL.find p.1 o.Ei == AL.find p.1 c.Ei)
+
 end Bpp.Graph
